@@ -435,6 +435,8 @@ pub fn gen(stream: &str, tier: &str, seed: u64) -> Vec<String> {
                 }
             }
         }
+        "v3cat" => out.extend(crate::catalogue::stream::<crate::fam::V3>(tier, seed)),
+        "v5cat" => out.extend(crate::catalogue::stream::<crate::fam::V5>(tier, seed)),
         "enca" => {
             let n = if thorough { 20_000 } else { 2_500 };
             for i in 0..n {
